@@ -16,16 +16,16 @@ func c14Enc(draft03 bool) Encoding {
 	return Draft02Encoding
 }
 
-// VH_C14_RoundTrip: both drafts x record size rs in {1,2,3} (quick) / {1,2,3,4} (thorough) x payload length
-// n = 0..2*rs+1, payload bytes symbolic, SHA-256 an uninterpreted collision-free function: Encode's stream
+// VH_C14_RoundTrip: both drafts x record size rs in {1,2,3} x payload length n = 0..2*rs+1 (quick) /
+// rs in 1..8 x n = 0..4*rs+1 (thorough), payload bytes symbolic, SHA-256 an uninterpreted collision-free function: Encode's stream
 // and digest header equal the independent recursive definition; NewDecoder+ReadAll on that stream with that
 // header returns the payload without error.
 func VH_C14_RoundTrip() {
 	vh.MustReach("empty", "single", "multi")
 	draft03 := vh.Choose(2) == 1
 	enc := c14Enc(draft03)
-	rs := 1 + vh.Choose(3+vh.Tier())
-	n := vh.Choose(2*rs + 2)
+	rs := 1 + vh.Choose(3+5*vh.Tier())
+	n := vh.Choose((2+2*vh.Tier())*rs + 2)
 	payload := vh.Bytes("p", n)
 	var w vh.Sink
 	hdr, err := enc.Encode(&w, payload, rs)
@@ -77,13 +77,13 @@ func VH_C14_LargeRecordSizes() {
 }
 
 // VH_C14_RecordSizeArithmetic: Encode with a SYMBOLIC record size rs in [1, 2^63) (all values) and payload
-// length n = 0..3: must not panic, and the number of records written must be ceil(n/rs) (1 for the empty
+// length n = 0..3 (quick) / 0..9 (thorough): must not panic, and the number of records written must be ceil(n/rs) (1 for the empty
 // draft-02 payload): checked through the stream length 8 + n + 32*(records-1).
 func VH_C14_RecordSizeArithmetic() {
 	vh.MustReach("rs>=n", "rs<n")
 	draft03 := vh.Choose(2) == 1
 	enc := c14Enc(draft03)
-	n := vh.Choose(4)
+	n := vh.Choose(4 + 6*vh.Tier())
 	rs := vh.Int("rs")
 	vh.Assume(rs >= 1)
 	payload := vh.Bytes("p", n)
@@ -102,7 +102,7 @@ func VH_C14_RecordSizeArithmetic() {
 	}
 	records := 1
 	if n > 0 {
-		// ceil(n/rs) without overflow: n <= 3
+		// ceil(n/rs) without overflow or division: n is small
 		records = 0
 		for left := n; left > 0; {
 			records++
